@@ -49,6 +49,7 @@ class Scenario:
         self.lint = False
         self.extra_meta = {}   # thread position -> dict of dotted keys
         self.gid = {}          # task type label -> gid (from the real task_get_type_gid)
+        self.marks = {}        # thread position -> list of dict(type, stack, title, labels=[(value,label)...]) in definition order
 
     # ---- ordering rules of system.c
     def loom_order(self):
@@ -83,6 +84,14 @@ class Scenario:
                 cpus = self.looms[t["loom"]]
             meta = trace.thread_meta(t["tid"], t["pid"], t["loom"], app_id=t.get("app", 1), require=req, cpus=cpus,
                                      rank=t.get("rank"), nranks=t.get("nranks"), extra=self.extra_meta.get(pos))
+            if self.marks.get(pos):
+                mk = {}
+                for d in self.marks[pos]:
+                    e = {"title": d["title"], "chan_type": "stack" if d["stack"] else "single"}
+                    if d.get("labels"):
+                        e["labels"] = {str(v): l for (v, l) in d["labels"]}
+                    mk[str(d["type"])] = e
+                meta["ovni"]["mark"] = mk
             evs = [trace.ev_bytes(mcv, clk, jumbo=bytes(payload)) if isinstance(payload, Jumbo) else trace.ev_bytes(mcv, clk, payload)
                    for (p, clk, mcv, payload) in self.events if p == pos]
             tr.add_thread(t["loom"], t["pid"], t["tid"], meta, evs)
@@ -100,6 +109,10 @@ class Scenario:
                                              t["rank"] if t.get("rank") is not None else -1))
         for (li, idx, virt) in self.cpu_table():
             out.append("C %d %d %d" % (1 if virt else 0, li, idx))
+        for gi in range(len(self.threads)):
+            for d in self.marks.get(inv[gi], []):
+                labs = ",".join("%d:%s" % (v, l.encode("latin1").hex() or "-") for (v, l) in d.get("labels", [])) or "-"
+                out.append("K %d %d %d %s %s" % (gi, d["type"], 1 if d["stack"] else 0, d["title"].encode("latin1").hex() or "-", labs))
         out.append("L %d" % (1 if self.lint else 0))
         out.append("M " + " ".join(str(ord(MODEL_IDS[m])) for m in self.enabled))
         # events in the merged order the emulator uses: by clock, ties by stream order (relpath) - the generator
@@ -121,6 +134,42 @@ class Scenario:
                 "events": [(p, c, m, ("J:" if isinstance(pl, Jumbo) else "") + pl.hex()) for (p, c, m, pl) in self.events]}
 
 
+def scenario_from_dir(root, tables):
+    """reads a trace directory written by the real runtime back into a Scenario (events, metadata, marks)"""
+    s = Scenario()
+    for m in tables["models"]:
+        s.versions[m["name"]] = m["version"]
+    found = []
+    for d, dn, fn in os.walk(root):
+        if "stream.json" in fn and "stream.obs" in fn:
+            found.append(d)
+    found.sort()
+    enabled = set()
+    for d in found:
+        meta = json.load(open(os.path.join(d, "stream.json")))
+        o = meta["ovni"]
+        loom = o["loom"]
+        if "loom_cpus" in o:
+            s.looms.setdefault(loom, [])
+            for c in o["loom_cpus"]:
+                if (c["index"], c["phyid"]) not in s.looms[loom]:
+                    s.looms[loom].append((c["index"], c["phyid"]))
+        else:
+            s.looms.setdefault(loom, [])
+        pos = len(s.threads)
+        s.threads.append({"loom": loom, "pid": o["pid"], "tid": o["tid"], "app": o.get("app_id", 1), "rank": o.get("rank"), "nranks": o.get("nranks")})
+        enabled |= set(o.get("require", {}))
+        if "mark" in o:
+            s.marks[pos] = [{"type": int(k), "stack": v.get("chan_type") == "stack", "title": v.get("title", ""),
+                             "labels": [(int(a), b) for a, b in v.get("labels", {}).items()]} for k, v in o["mark"].items()]
+        ok, evs, why = trace.parse_obs(open(os.path.join(d, "stream.obs"), "rb").read())
+        for e in evs:
+            pl = Jumbo(e["jumbo"]) if e["jumbo"] is not None else e["payload"]
+            s.events.append((pos, e["clock"], e["mcv"], pl))
+    s.enabled = [m["name"] for m in tables["models"] if m["name"] in enabled]
+    return s
+
+
 def i32(x):
     return struct.pack("<i", x)
 
@@ -139,6 +188,8 @@ def run_oracle(oracle, scenarios):
             cur = ("err", int(ln.split()[1]))
         elif ln == "ok":
             cur = ("ok", {})
+        elif ln.startswith("MT ") or ln.startswith("ML "):
+            cur[1].setdefault("_marks", []).append(ln)
         elif ln.startswith("P "):
             _, cpu, row, ty, tm, val = ln.split()
             cur[1].setdefault((int(cpu), int(row) + 1, int(ty)), []).append((int(tm), int(val)))
@@ -196,7 +247,7 @@ def compare(s, real, model, types=None):
     if real["rc"] != 0:
         return "model accepts, ovniemu exits %s: %s" % (real["rc"], _first_error(real["stderr"]))
     t0 = min(e[1] for e in s.events) if s.events else 0
-    mr = shift_rows(model[1], t0)
+    mr = shift_rows({k: v for k, v in model[1].items() if k != "_marks"}, t0)
     rr = real["rows"]
     keys = set(mr) | set(rr)
     for k in sorted(keys):
